@@ -80,7 +80,111 @@ func short(q string) string { return strings.TrimPrefix(q, modPath+"/") }
 
 // staticFn returns the SSA function called (nil for dynamic/interface).
 func staticFn(call ssa.CallInstruction) *ssa.Function {
-	return call.Common().StaticCallee()
+	if f := call.Common().StaticCallee(); f != nil {
+		return f
+	}
+	if call.Common().IsInvoke() {
+		return nil
+	}
+	return closureValueFn(call.Common().Value, 0)
+}
+
+// closureValueFn resolves a called function value that is a local closure: a MakeClosure, or a load of a local
+// variable / captured variable (through any number of enclosing closures) that is assigned exactly once, a closure.
+func closureValueFn(v ssa.Value, depth int) *ssa.Function {
+	if depth > 6 {
+		return nil
+	}
+	switch x := v.(type) {
+	case *ssa.Function:
+		return x
+	case *ssa.MakeClosure:
+		f, _ := x.Fn.(*ssa.Function)
+		return f
+	case *ssa.UnOp:
+		if x.Op != token.MUL {
+			return nil
+		}
+		var cell *ssa.Alloc
+		switch a := x.X.(type) {
+		case *ssa.Alloc:
+			cell = a
+		case *ssa.FreeVar:
+			cell = capturedCellDeep(a)
+		}
+		if cell == nil {
+			return nil
+		}
+		var only ssa.Value
+		n := 0
+		var scan func(f *ssa.Function)
+		bad := false
+		scan = func(f *ssa.Function) {
+			eachInstr(f, func(_ *ssa.BasicBlock, _ int, ins ssa.Instruction) {
+				if st, ok := ins.(*ssa.Store); ok && cellOf(st.Addr) == cell {
+					only = st.Val
+					n++
+				}
+			})
+			for _, a := range f.AnonFuncs {
+				scan(a)
+			}
+		}
+		if cell.Parent() == nil {
+			return nil
+		}
+		scan(cell.Parent())
+		if bad || n != 1 {
+			return nil
+		}
+		return closureValueFn(only, depth+1)
+	}
+	return nil
+}
+
+// cellOf: the Alloc an address value denotes, directly or as a variable captured by reference.
+func cellOf(addr ssa.Value) *ssa.Alloc {
+	switch a := addr.(type) {
+	case *ssa.Alloc:
+		return a
+	case *ssa.FreeVar:
+		return capturedCellDeep(a)
+	}
+	return nil
+}
+
+// capturedCellDeep follows a free variable through every enclosing closure to the Alloc it refers to.
+func capturedCellDeep(fv *ssa.FreeVar) *ssa.Alloc {
+	for depth := 0; depth < 8; depth++ {
+		fn := fv.Parent()
+		if fn == nil || fn.Parent() == nil {
+			return nil
+		}
+		idx := -1
+		for i, v := range fn.FreeVars {
+			if v == fv {
+				idx = i
+			}
+		}
+		if idx < 0 {
+			return nil
+		}
+		var b ssa.Value
+		eachInstr(fn.Parent(), func(_ *ssa.BasicBlock, _ int, ins ssa.Instruction) {
+			if mc, ok := ins.(*ssa.MakeClosure); ok && mc.Fn == ssa.Value(fn) && idx < len(mc.Bindings) {
+				b = mc.Bindings[idx]
+			}
+		})
+		switch x := b.(type) {
+		case *ssa.Alloc:
+			return x
+		case *ssa.FreeVar:
+			fv = x
+		default:
+			return nil
+		}
+	}
+	return nil
 }
 
 // eachInstr visits every instruction of fn (not of nested closures).
